@@ -182,3 +182,34 @@ Inductive carried_on : Z -> list edge -> list hop -> edge -> Z -> Prop :=
 | co_here a e es h hs : carried_on a (e :: es) (h :: hs) e a
 | co_next a e es h hs e' a' :
     carried_on (h_amt h) es hs e' a' -> carried_on a (e :: es) (h :: hs) e' a'.
+
+(* ---------- onion payload of the final hop of a blinded route ---------- *)
+
+(* tlv.SizeTUint64: significant bytes *)
+Definition tu_bytes (v : Z) : Z := if v <=? 0 then 0 else Z.log2 v / 8 + 1.
+
+(* tlv.VarIntSize *)
+Definition varint_size (v : Z) : Z :=
+  if v <? 253 then 1 else if v <? 65536 then 3 else if v <? 4294967296 then 5 else 9.
+
+(* a record whose type fits one byte *)
+Definition rec1 (len : Z) : Z := 1 + varint_size len + len.
+
+(* destination custom record 70000 (5-byte type) of [l] bytes; l < 0: none *)
+Definition custom_bytes (l : Z) : Z := if l <? 0 then 0 else 5 + varint_size l + l.
+
+(* lastHopPayloadSize, blinded branch (pathfind.go:1585): amount, expiry,
+   encrypted data of the largest last hop, blinding point only for an
+   introduction-node-only path.  NO total_amount_msat, NO custom records. *)
+Definition final_hop_est (amt tl enc_len : Z) (single : bool) : Z :=
+  let body := rec1 (tu_bytes amt) + rec1 (tu_bytes tl) + rec1 enc_len +
+              (if single then rec1 33 else 0) in
+  body + varint_size body + 32.
+
+(* what newRoute really puts on the final hop (Hop.PackHopPayload): the same
+   plus total_amount_msat (type 18) and the custom records *)
+Definition final_hop_real (amt tl enc_len : Z) (single : bool) (total custom_len : Z) : Z :=
+  let body := rec1 (tu_bytes amt) + rec1 (tu_bytes tl) + rec1 enc_len +
+              (if single then rec1 33 else 0) +
+              (if total =? 0 then 0 else rec1 (tu_bytes total)) + custom_bytes custom_len in
+  body + varint_size body + 32.
